@@ -36,25 +36,25 @@ Qed.
 Example ex_asleep : exists s, reachable [10;11] s /\ s.(pollfn) = true /\ wake_pending s = false /\ job_queued s = false
   /\ poll_running s = false /\ waker_armed s = true.
 Proof.
-  destruct (run (init [10;11]) (take 10 tr_e)) as [s|] eqn:E; [|by vm_compute in E].
-  exists s. split; [by exists (take 10 tr_e)|]. vm_compute in E. injection E as <-. done.
+  destruct (run (init [10;11]) (take 11 tr_e)) as [s|] eqn:E; [|by vm_compute in E].
+  exists s. split; [by exists (take 11 tr_e)|]. vm_compute in E. injection E as <-. done.
 Qed.
 Example ex_dead_waker_registered : exists s, reachable [10;11] s /\ s.(pollfn) = true /\ wake_pending s = false
   /\ job_queued s = true /\ poll_running s = false /\ waker_armed s = false /\ s.(reg) = Some 0.
 Proof.
-  destruct (run (init [10;11]) (take 19 tr_d)) as [s|] eqn:E; [|by vm_compute in E].
-  exists s. split; [by exists (take 19 tr_d)|]. vm_compute in E. injection E as <-. done.
+  destruct (run (init [10;11]) (take 20 tr_d)) as [s|] eqn:E; [|by vm_compute in E].
+  exists s. split; [by exists (take 20 tr_d)|]. vm_compute in E. injection E as <-. done.
 Qed.
 
 (* theorem 5b: the object is gone, then an item event, then a run to a quiescent state *)
 Example ex_shutdown : exists s s1 s2 tr, reachable [10;11] s /\ s.(freed) = true /\ s.(pollfn) = true /\
   step s AEnvAvail = Some s1 /\ run s1 tr = Some s2 /\ quiescent s2 /\ processed s2.(log) = [10].
 Proof.
-  destruct (run (init [10;11]) (take 13 tr_e)) as [s|] eqn:E; [|by vm_compute in E].
+  destruct (run (init [10;11]) (take 14 tr_e)) as [s|] eqn:E; [|by vm_compute in E].
   destruct (step s AEnvAvail) as [s1|] eqn:E1; [|vm_compute in E; injection E as <-; by vm_compute in E1].
   destruct (run s1 (W 1 3 ++ [AChute])) as [s2|] eqn:E2;
     [|vm_compute in E; injection E as <-; vm_compute in E1; injection E1 as <-; by vm_compute in E2].
-  exists s, s1, s2, (W 1 3 ++ [AChute]). split; [by exists (take 13 tr_e)|].
+  exists s, s1, s2, (W 1 3 ++ [AChute]). split; [by exists (take 14 tr_e)|].
   vm_compute in E; injection E as <-. vm_compute in E1; injection E1 as <-. vm_compute in E2; injection E2 as <-.
   split; [done|]. split; [done|]. split; [done|]. split; [done|]. split; [by apply all_done_quiescent|done].
 Qed.
